@@ -9,22 +9,77 @@ import (
 	"sort"
 	"strconv"
 	"strings"
+	"time"
 
 	"github.com/klauspost/compress/snappy"
+	"github.com/package-url/packageurl-go"
 
 	"github.com/quay/claircore"
+	"github.com/quay/claircore/pkg/rhctag"
 	"github.com/quay/claircore/rhel"
 	"github.com/quay/claircore/rhel/vex"
 	"github.com/quay/claircore/toolkit/types/cpe"
+	"github.com/quay/claircore/toolkit/types/cvss"
 	"github.com/quay/claircore/verifharness/internal/hx"
 )
 
-// Red Hat VEX (CSAF) — translation validation only: there is no Lean model of
-// rhel/vex/parser.go. A ground truth (repositories, module streams, fixed and
-// unfixed components, components marked not affected / under investigation,
-// severities, scores, remediations) is rendered as CSAF documents (jsonl,
-// snappy) and the result of the real DeltaParse is compared with what the
-// ground truth states.
+// Red Hat VEX (CSAF).  A ground truth (repositories, module streams, fixed and
+// unfixed rpm components, container images, components marked not affected /
+// under investigation, severities, scores, remediations) is turned into the
+// *decoded document* (cDoc: product tree, relationships, statuses, threats,
+// scores, remediations).  The cDoc is written as the operation line (the Lean
+// model Model/FeedVex.lean answers it) and rendered as CSAF JSON (jsonl,
+// snappy) for the real DeltaParse.  The result is also compared directly with
+// what the ground truth states, for the feeds inside the oracle's domain.
+
+// ---- the decoded document ----
+
+type cCvss struct {
+	Vector string
+	Base   float64
+}
+type cScore struct {
+	V2, V3, V4 *cCvss
+	Products   []string
+}
+type cThreat struct {
+	Category, Details string
+	Products          []string
+}
+type cRem struct {
+	URL      string
+	Products []string
+}
+type cProduct struct {
+	ID        string
+	CPE, Purl *string
+}
+type cBranch struct {
+	Category, Name string
+	Product        *cProduct // nil: the branch has no product member
+	Subs           []*cBranch
+}
+type cRel struct{ Category, FullID, Ref, RelTo string }
+type cVuln struct {
+	CVE        string
+	Issued     time.Time
+	Refs       []string
+	Notes      [][2]string
+	StatusKeys []string // order of the keys of product_status as written
+	Status     map[string][]string
+	Threats    []cThreat
+	Scores     []cScore
+	Rems       []cRem
+}
+type cDoc struct {
+	ID, Status string
+	DocRefs    [][2]string
+	Branches   []*cBranch
+	Rels       []cRel
+	Vulns      []cVuln
+}
+
+// ---- ground truth ----
 
 type vexRepo struct{ ID, CPE string }
 type vexModule struct{ ID, Name, Stream string } // ID = name:stream:version:context
@@ -39,6 +94,11 @@ type vexFixed struct {
 	Vector       string // "" = no score
 	Remediation  string // "" = none
 	ZeroScore    bool   // the baseScore of the score is 0.0
+	// container image instead of an rpm: Name is the image name inside the
+	// registry ("openshift4/ose-cli"), Tag the fixed tag, Maj/Min what rhctag reads from it
+	OCI      bool
+	Tag      string
+	Maj, Min int
 }
 type vexUnfixed struct {
 	Repo, Module int
@@ -47,24 +107,28 @@ type vexUnfixed struct {
 	Impact       string
 	Vector       string
 	ZeroScore    bool
+	OCI          bool
 }
 type vexDoc struct {
 	ID, Status, SelfLink, Desc string
+	Issued                     time.Time
 	Refs                       []string
 	Repos                      []vexRepo
 	Modules                    []vexModule
 	Fixed                      []vexFixed
 	Unfixed                    []vexUnfixed
+	ModelOnly                  string // non-empty: the decoded document was altered in a way the ground truth does not describe
 }
 
 var vexCPEs = []string{"cpe:/a:redhat:enterprise_linux:8::appstream", "cpe:/o:redhat:enterprise_linux:8::baseos", "cpe:/a:redhat:rhel_eus:8.6::appstream",
-	"cpe:/a:redhat:enterprise_linux:9::crb", "cpe:/o:redhat:enterprise_linux:7", "cpe:/a:redhat:rhel_e4s:9.0::appstream", "cpe:/a:redhat:openshift:4.1*::el8"}
-var vexRepoIDs = []string{"AppStream-8.10.0.Z.MAIN.EUS", "BaseOS-8.10.0.Z.MAIN.EUS", "AppStream-8.6.0.Z.EUS", "CRB-9.4.0.Z.MAIN.EUS", "red_hat_enterprise_linux_7", "AppStream-9.0.0.Z.E4S", "8Base-RHOSE-4.12"}
+	"cpe:/a:redhat:enterprise_linux:9::crb", "cpe:/o:redhat:enterprise_linux:7", "cpe:/a:redhat:rhel_e4s:9.0::appstream", "cpe:/a:redhat:openshift:4.1*::el8", "cpe:/a:redhat:openshift:4.?::el9"}
+var vexRepoIDs = []string{"AppStream-8.10.0.Z.MAIN.EUS", "BaseOS-8.10.0.Z.MAIN.EUS", "AppStream-8.6.0.Z.EUS", "CRB-9.4.0.Z.MAIN.EUS", "red_hat_enterprise_linux_7", "AppStream-9.0.0.Z.E4S", "8Base-RHOSE-4.12", "9Base-RHOSE-4.14"}
 var vexVectors = []string{"CVSS:3.1/AV:N/AC:H/PR:L/UI:N/S:U/C:H/I:H/A:H", "CVSS:3.1/AV:N/AC:L/PR:N/UI:N/S:U/C:N/I:N/A:H", "CVSS:3.0/AV:L/AC:L/PR:L/UI:N/S:U/C:L/I:N/A:N"}
-var vexImpacts = []string{"Low", "Moderate", "Important", "Critical", "", "", "None", "important"}
+var vexImpacts = []string{"Low", "Moderate", "Important", "Critical", "", "", "None", "important", "LOW", "Severe"}
+var vexImages = []string{"openshift4/ose-cli", "openshift4/ose-metering-hive", "ocs4/rook-ceph-rhel8-operator", "rhel8/postgresql-13", "ubi9/nodejs-18"}
 
 func (g *gen) vexDoc(n int) vexDoc {
-	d := vexDoc{ID: "CVE-2024-" + strconv.Itoa(1000+n), Status: "final", Desc: g.text(6)}
+	d := vexDoc{ID: "CVE-2024-" + strconv.Itoa(1000+n), Status: "final", Desc: g.text(6), Issued: g.date()}
 	if g.r.Chance(1, 12) {
 		d.Status = "deleted"
 	}
@@ -74,9 +138,14 @@ func (g *gen) vexDoc(n int) vexDoc {
 	}
 	nr := 1 + g.r.Intn(3)
 	perm := g.r.Intn(len(vexCPEs))
+	// product ids are document-scoped: now and then the same repository id stands for another CPE
+	shift := 0
+	if g.r.Chance(1, 4) {
+		shift = 1 + g.r.Intn(len(vexCPEs)-1)
+	}
 	for i := 0; i < nr; i++ {
 		k := (perm + i) % len(vexCPEs)
-		d.Repos = append(d.Repos, vexRepo{ID: vexRepoIDs[k], CPE: vexCPEs[k]})
+		d.Repos = append(d.Repos, vexRepo{ID: vexRepoIDs[k], CPE: vexCPEs[(k+shift)%len(vexCPEs)]})
 	}
 	for i, m := 0, g.r.Intn(3); i < m; i++ {
 		name, stream := g.r.Pick("nodejs", "postgresql", "php", "container-tools"), g.r.Pick("12", "16", "rhel8", "7.4")
@@ -113,10 +182,27 @@ func (g *gen) vexDoc(n int) vexDoc {
 		case 2:
 			f.Arches = nil // no arch qualifier at all
 		default:
-			f.Arches = distinct(1+g.r.Intn(4), func() string { return g.r.Pick("x86_64", "aarch64", "ppc64le", "s390x", "i686", "src") })
+			f.Arches = distinct(1+g.r.Intn(4), func() string { return g.r.Pick("x86_64", "aarch64", "ppc64le", "s390x", "i686", "src", "amd64") })
 		}
 		if g.r.Chance(1, 10) {
 			f.Namespace = g.r.Pick("fedora", "", "centos")
+		}
+		if g.r.Chance(1, 6) {
+			// a container image: no module, no epoch, arches of images
+			f.OCI, f.Module, f.Epoch, f.Namespace = true, -1, "", "redhat"
+			f.Name = g.r.Pick(vexImages...)
+			f.Maj, f.Min = 4, 6+g.r.Intn(4)
+			switch g.r.Intn(4) {
+			case 0:
+				f.Tag = fmt.Sprintf("v%d.%d.0-20230%d140546.p0.g8b9da97.assembly.stream", f.Maj, f.Min, 1+g.r.Intn(9))
+			case 1:
+				f.Tag = fmt.Sprintf("%d.%d-%d.49a6fcf.release_%d.%d", f.Maj, f.Min, 100+g.r.Intn(100), f.Maj, f.Min)
+			case 2:
+				f.Tag, f.Min = fmt.Sprintf("%d-%d", f.Maj, 1+g.r.Intn(99)), 0
+			default:
+				f.Tag = fmt.Sprintf("v%d.%d.%d", f.Maj, f.Min, g.r.Intn(30))
+			}
+			f.Arches = distinct(1+g.r.Intn(3), func() string { return g.r.Pick("amd64", "arm64", "ppc64le", "s390x") })
 		}
 		if g.r.Chance(2, 3) {
 			f.Vector = g.r.Pick(vexVectors...)
@@ -125,7 +211,7 @@ func (g *gen) vexDoc(n int) vexDoc {
 		if g.r.Chance(1, 2) {
 			f.Remediation = "https://access.redhat.com/errata/RHSA-2024:" + strconv.Itoa(1000+g.r.Intn(9000))
 		}
-		key := fmt.Sprint(f.Repo, f.Module, f.Name, f.Epoch, f.VR)
+		key := fmt.Sprint(f.Repo, f.Module, f.Name, f.Epoch, f.VR, f.Tag)
 		key2 := fmt.Sprint(f.Repo, f.Module, f.Name) // one version of a package per (repository, module) keeps product ids distinct
 		if seenF[key] || seenF[key2] {
 			continue
@@ -136,6 +222,9 @@ func (g *gen) vexDoc(n int) vexDoc {
 	seenU := map[string]bool{}
 	for i, m := 0, g.r.Intn(5); i < m; i++ {
 		u := vexUnfixed{Repo: g.r.Intn(len(d.Repos)), Module: mod(), Name: g.pkg(), Impact: g.r.Pick(vexImpacts...)}
+		if g.r.Chance(1, 8) {
+			u.OCI, u.Module, u.Name = true, -1, g.r.Pick(vexImages...)
+		}
 		switch g.r.Intn(6) {
 		case 0:
 			u.Status = "known_not_affected"
@@ -160,25 +249,24 @@ func (g *gen) vexDoc(n int) vexDoc {
 
 func qesc(s string) string { return strings.NewReplacer("+", "%2B", ":", "%3A", " ", "%20").Replace(s) }
 
-// renderVex renders one CSAF document (one line of the feed).
-func renderVex(d vexDoc) []byte {
-	type prod = map[string]any
-	branch := func(cat, name string, p prod) map[string]any {
-		return map[string]any{"category": cat, "name": name, "product": p}
-	}
-	var repoBr, compBr []map[string]any
+func sp(s string) *string { return &s }
+
+// imageID is the product id of a container image component.
+func imageID(name string) string { return strings.ReplaceAll(name, "/", "_") }
+
+// decoded builds the document a ground truth stands for.
+func (d vexDoc) decoded() cDoc {
+	c := cDoc{ID: d.ID, Status: d.Status, DocRefs: [][2]string{{"self", d.SelfLink}, {"external", "https://example.com/other"}}}
+	var repoBr, compBr []*cBranch
 	for _, r := range d.Repos {
-		repoBr = append(repoBr, branch("product_name", r.ID, prod{"name": r.ID, "product_id": r.ID, "product_identification_helper": map[string]string{"cpe": r.CPE}}))
+		repoBr = append(repoBr, &cBranch{Category: "product_name", Name: r.ID, Product: &cProduct{ID: r.ID, CPE: sp(r.CPE)}})
 	}
 	for _, m := range d.Modules {
 		ver := strings.TrimPrefix(m.ID, m.Name+":")
-		compBr = append(compBr, branch("product_version", m.ID, prod{"name": m.ID, "product_id": m.ID,
-			"product_identification_helper": map[string]string{"purl": "pkg:rpmmod/redhat/" + m.Name + "@" + qesc(ver)}}))
+		compBr = append(compBr, &cBranch{Category: "product_version", Name: m.ID, Product: &cProduct{ID: m.ID, Purl: sp("pkg:rpmmod/redhat/" + m.Name + "@" + qesc(ver))}})
 	}
-	var rels []map[string]any
 	rel := func(id, ref, to string) {
-		rels = append(rels, map[string]any{"category": "default_component_of", "full_product_name": prod{"name": ref + " as a component of " + to, "product_id": id},
-			"product_reference": ref, "relates_to_product_reference": to})
+		c.Rels = append(c.Rels, cRel{"default_component_of", id, ref, to})
 	}
 	relMod := map[string]bool{}
 	// parent returns the product id a component is a component of (repo or repo:module), adding the module relationship once
@@ -195,10 +283,23 @@ func renderVex(d vexDoc) []byte {
 		return id
 	}
 	status := map[string][]string{}
+	var statusKeys []string
+	addStatus := func(k, pid string) {
+		if _, ok := status[k]; !ok {
+			statusKeys = append(statusKeys, k)
+		}
+		status[k] = append(status[k], pid)
+	}
 	threats := map[string][]string{}
 	scores := map[string][]string{}
 	rems := map[string][]string{}
 	declared := map[string]bool{}
+	declare := func(cid, purl string) {
+		if !declared[cid] {
+			declared[cid] = true
+			compBr = append(compBr, &cBranch{Category: "product_version", Name: cid, Product: &cProduct{ID: cid, Purl: sp(purl)}})
+		}
+	}
 	for _, f := range d.Fixed {
 		par := parent(f.Repo, f.Module)
 		arches := f.Arches
@@ -206,33 +307,37 @@ func renderVex(d vexDoc) []byte {
 			arches = []string{""}
 		}
 		for _, a := range arches {
-			ep := f.Epoch
-			if ep == "" {
-				ep = "0"
+			var cid, purl string
+			if f.OCI {
+				short := f.Name[strings.Index(f.Name, "/")+1:]
+				cid = imageID(f.Name) + "@" + f.Tag + "_" + a
+				purl = "pkg:oci/" + short + "@sha256%3A" + fmt.Sprintf("%064x", len(f.Tag)*7+len(a)) + "?arch=" + a + "&repository_url=registry.redhat.io/" + f.Name + "&tag=" + f.Tag
+			} else {
+				ep := f.Epoch
+				if ep == "" {
+					ep = "0"
+				}
+				cid = f.Name + "-" + ep + ":" + f.VR
+				purl = "pkg:rpm/" + f.Namespace + "/" + f.Name + "@" + qesc(f.VR)
+				if f.Namespace == "" {
+					purl = "pkg:rpm/" + f.Name + "@" + qesc(f.VR)
+				}
+				var q []string
+				if a != "" {
+					cid += "." + a
+					q = append(q, "arch="+a)
+				}
+				if f.Epoch != "" {
+					q = append(q, "epoch="+f.Epoch)
+				}
+				if len(q) > 0 {
+					purl += "?" + strings.Join(q, "&")
+				}
 			}
-			cid := f.Name + "-" + ep + ":" + f.VR
-			purl := "pkg:rpm/" + f.Namespace + "/" + f.Name + "@" + qesc(f.VR)
-			if f.Namespace == "" {
-				purl = "pkg:rpm/" + f.Name + "@" + qesc(f.VR)
-			}
-			var q []string
-			if a != "" {
-				cid += "." + a
-				q = append(q, "arch="+a)
-			}
-			if f.Epoch != "" {
-				q = append(q, "epoch="+f.Epoch)
-			}
-			if len(q) > 0 {
-				purl += "?" + strings.Join(q, "&")
-			}
-			if !declared[cid] {
-				declared[cid] = true
-				compBr = append(compBr, branch("product_version", cid, prod{"name": cid, "product_id": cid, "product_identification_helper": map[string]string{"purl": purl}}))
-			}
+			declare(cid, purl)
 			pid := par + ":" + cid
 			rel(pid, cid, par)
-			status["fixed"] = append(status["fixed"], pid)
+			addStatus("fixed", pid)
 			if f.Impact != "" {
 				threats[f.Impact] = append(threats[f.Impact], pid)
 			}
@@ -247,13 +352,15 @@ func renderVex(d vexDoc) []byte {
 	for _, u := range d.Unfixed {
 		par := parent(u.Repo, u.Module)
 		cid := u.Name
-		if !declared[cid] {
-			declared[cid] = true
-			compBr = append(compBr, branch("product_version", cid, prod{"name": cid, "product_id": cid, "product_identification_helper": map[string]string{"purl": "pkg:rpm/redhat/" + u.Name + "?arch=src"}}))
+		purl := "pkg:rpm/redhat/" + u.Name + "?arch=src"
+		if u.OCI {
+			cid = imageID(u.Name)
+			purl = "pkg:oci/" + u.Name[strings.Index(u.Name, "/")+1:] + "?repository_url=registry.redhat.io/" + u.Name
 		}
+		declare(cid, purl)
 		pid := par + ":" + cid
 		rel(pid, cid, par)
-		status[u.Status] = append(status[u.Status], pid)
+		addStatus(u.Status, pid)
 		if u.Impact != "" {
 			threats[u.Impact] = append(threats[u.Impact], pid)
 		}
@@ -261,52 +368,455 @@ func renderVex(d vexDoc) []byte {
 			scores[scoreKey(u.Vector, u.ZeroScore)] = append(scores[scoreKey(u.Vector, u.ZeroScore)], pid)
 		}
 	}
-	vuln := map[string]any{"cve": d.ID, "release_date": "2024-08-08T00:00:00+00:00", "product_status": status,
-		"notes": []map[string]string{{"category": "summary", "text": "a summary", "title": "Vulnerability summary"}, {"category": "description", "text": d.Desc, "title": "Vulnerability description"}}}
-	var refs []map[string]string
-	for _, u := range d.Refs {
-		refs = append(refs, map[string]string{"category": "external", "summary": "x", "url": u})
-	}
-	vuln["references"] = refs
-	var ts []map[string]any
+	v := cVuln{CVE: d.ID, Issued: d.Issued, Refs: d.Refs, Status: status, StatusKeys: statusKeys,
+		Notes: [][2]string{{"summary", "a summary"}, {"description", d.Desc}}}
 	for _, k := range sortedSetKeys(threats) {
-		ts = append(ts, map[string]any{"category": "impact", "details": k, "product_ids": threats[k]})
+		v.Threats = append(v.Threats, cThreat{"impact", k, threats[k]})
 	}
 	if len(status["fixed"]) > 0 {
-		ts = append(ts, map[string]any{"category": "exploit_status", "details": "Critical", "product_ids": status["fixed"]}) // not an impact threat
+		v.Threats = append(v.Threats, cThreat{"exploit_status", "Critical", status["fixed"]}) // not an impact threat
 	}
-	vuln["threats"] = ts
-	var ss []map[string]any
 	for _, k := range sortedSetKeys(scores) {
 		vec, zero, _ := strings.Cut(k, "|")
-		ver := "3.1"
-		if strings.HasPrefix(vec, "CVSS:3.0") {
-			ver = "3.0"
-		}
 		base := 7.5
 		if zero == "zero" {
 			base = 0.0
 		}
-		ss = append(ss, map[string]any{"cvss_v3": map[string]any{"baseScore": base, "baseSeverity": "HIGH", "vectorString": vec, "version": ver}, "products": scores[k]})
+		v.Scores = append(v.Scores, cScore{V3: &cCvss{Vector: vec, Base: base}, Products: scores[k]})
 	}
-	vuln["scores"] = ss
-	var rs []map[string]any
 	for _, k := range sortedSetKeys(rems) {
-		rs = append(rs, map[string]any{"category": "vendor_fix", "details": "apply the update", "product_ids": rems[k], "url": k})
+		v.Rems = append(v.Rems, cRem{k, rems[k]})
 	}
-	vuln["remediations"] = rs
+	c.Vulns = []cVuln{v}
+	c.Branches = []*cBranch{{Category: "vendor", Name: "Red Hat", Subs: append([]*cBranch{{Category: "product_family", Name: "Red Hat Enterprise Linux", Subs: repoBr}}, compBr...)}}
+	return c
+}
+
+// ---- alterations the ground truth does not describe (compared with the model only) ----
+
+func (c *cDoc) walkBranches(f func(b *cBranch)) {
+	var rec func(bs []*cBranch)
+	rec = func(bs []*cBranch) {
+		for _, b := range bs {
+			f(b)
+			rec(b.Subs)
+		}
+	}
+	rec(c.Branches)
+}
+
+// alter applies one unusual-but-decodable change to the document and names it.
+func (g *gen) alter(c *cDoc) string {
+	var prods []*cBranch
+	c.walkBranches(func(b *cBranch) {
+		if b.Product != nil {
+			prods = append(prods, b)
+		}
+	})
+	if len(prods) == 0 || len(c.Vulns) == 0 {
+		return ""
+	}
+	pick := prods[g.r.Intn(len(prods))]
+	v := &c.Vulns[0]
+	all := append(append([]string{}, v.Status["fixed"]...), v.Status["known_affected"]...)
+	switch g.r.Intn(16) {
+	case 0:
+		pick.Product = nil
+		return "a branch lost its product"
+	case 1:
+		pick.Product.CPE = nil
+		return "a product lost its cpe helper"
+	case 2:
+		pick.Product.Purl = nil
+		return "a product lost its purl helper"
+	case 3:
+		pick.Product.Purl = sp(g.r.Pick("notapurl", "pkg:", "pkg:rpm", "pkg:npm/left-pad@1.0.0", "pkg:rpm/redhat/@1", "pkg:generic/x?arch=src", "pkg:oci/img@sha256%3Aabc", "pkg:oci/img?tag=latest&repository_url=quay.io",
+			"pkg:oci/ns/img?tag=v4.7.0-1", "pkg:rpm/redhat/kernel-headers@1-1?arch=src", "pkg:rpmmod/redhat/postgresql:15/postgresql@15:1:abc", "pkg:rpmmod/fedora/nodejs@12:1:abc", "pkg:rpmmod/redhat/nodejs@12"))
+		return "a product got an unusual purl"
+	case 4:
+		pick.Product.CPE = sp(g.r.Pick("notacpe", "cpe:/a:red hat:x", "cpe:2.3:a", "cpe:/a:redhat:enterprise_linux:8::appstream"))
+		return "a product got another cpe"
+	case 5:
+		if len(v.Scores) > 0 {
+			s := &v.Scores[g.r.Intn(len(v.Scores))]
+			switch g.r.Intn(5) {
+			case 0:
+				s.V2, s.V3 = &cCvss{Vector: "AV:N/AC:L/Au:N/C:P/I:P/A:P", Base: 7.5}, nil
+			case 1:
+				s.V4 = &cCvss{Vector: "CVSS:4.0/AV:N/AC:L/AT:N/PR:N/UI:N/VC:H/VI:H/VA:H/SC:N/SI:N/SA:N", Base: 9.3}
+			case 2:
+				s.V3.Vector = g.r.Pick("garbage", "CVSS:3.1/AV:N", "")
+			case 3:
+				s.V3 = nil // a score object without any cvss member
+			default:
+				s.V2, s.V4 = &cCvss{Vector: "garbage", Base: 0}, &cCvss{Vector: "CVSS:4.0/AV:N/AC:L/AT:N/PR:N/UI:N/VC:N/VI:N/VA:N/SC:N/SI:N/SA:N", Base: 0}
+			}
+			return "a score of another shape"
+		}
+	case 6:
+		// a second vulnerability object in the document (the format allows it, Red Hat never writes it)
+		v2 := *v
+		v2.Notes = [][2]string{{"description", "second"}}
+		v2.Refs = []string{"https://example.com/second"}
+		v2.Status = map[string][]string{"fixed": v.Status["known_affected"], "known_affected": v.Status["fixed"]}
+		v2.StatusKeys = []string{"fixed", "known_affected"}
+		v2.Threats, v2.Scores, v2.Rems = nil, nil, nil
+		c.Vulns = append(c.Vulns, v2)
+		return "two vulnerability objects"
+	case 7:
+		if len(all) > 0 {
+			p := all[g.r.Intn(len(all))]
+			k := g.r.Pick("fixed", "known_affected")
+			v.Status[k] = append(v.Status[k], p)
+			if len(v.Status[k]) == 1 {
+				v.StatusKeys = append(v.StatusKeys, k)
+			}
+			return "a product id listed twice"
+		}
+	case 8:
+		if len(c.Rels) > 0 {
+			r := c.Rels[g.r.Intn(len(c.Rels))]
+			switch g.r.Intn(3) {
+			case 0:
+				r.Category = "optional_component_of"
+				c.Rels = append([]cRel{r}, c.Rels...) // ignored: another category
+			case 1:
+				r.Ref = "shadow"
+				c.Rels = append(c.Rels, r) // a later duplicate of the full product id: the first one counts
+			default:
+				for i := range c.Rels {
+					if c.Rels[i].FullID == r.FullID {
+						c.Rels = append(c.Rels[:i], c.Rels[i+1:]...) // the product id loses its relationship
+						break
+					}
+				}
+			}
+			return "relationships changed"
+		}
+	case 9:
+		// a component nested one level deeper: X as a component of (component of ...)
+		if len(v.Status["fixed"]) > 0 {
+			p := v.Status["fixed"][0]
+			c.Rels = append(c.Rels, cRel{"default_component_of", "deep:" + p, "extra-layer", p})
+			v.Status["fixed"] = append(v.Status["fixed"], "deep:"+p)
+			return "a four-level relationship"
+		}
+	case 10:
+		c.DocRefs = g.pickRefs()
+		return "document references changed"
+	case 11:
+		v.Notes = [][2]string{{"description", "first"}, {"general", "x"}, {"description", "last"}}
+		return "two description notes"
+	case 12:
+		v.Notes = nil
+		return "no notes"
+	case 13:
+		// two component ids with the same purl and no arch: the same key twice without an arch
+		for _, b := range prods {
+			if b.Product.Purl != nil && strings.HasPrefix(*b.Product.Purl, "pkg:rpm/redhat/") && !strings.Contains(*b.Product.Purl, "arch=") && len(v.Status["fixed"]) > 0 {
+				for _, r := range c.Rels {
+					if r.Ref == b.Product.ID {
+						twin := *b.Product
+						twin.ID += ".twin"
+						b.Subs = append(b.Subs, &cBranch{Category: "product_version", Name: twin.ID, Product: &twin})
+						c.Rels = append(c.Rels, cRel{"default_component_of", r.FullID + ".twin", twin.ID, r.RelTo})
+						v.Status["fixed"] = append(v.Status["fixed"], r.FullID+".twin")
+						return "the same package key twice without arch"
+					}
+				}
+			}
+		}
+	case 14:
+		if len(v.Threats) > 0 {
+			t := v.Threats[g.r.Intn(len(v.Threats))]
+			t.Details = "Critical"
+			v.Threats = append(v.Threats, t) // a later impact threat for the same products: the first one counts
+			return "a second impact threat"
+		}
+	default:
+		if len(v.Rems) > 0 {
+			r := v.Rems[0]
+			r.URL = "https://access.redhat.com/errata/RHSA-0000:0000"
+			v.Rems = append(v.Rems, r)
+			return "a second remediation"
+		}
+	}
+	return ""
+}
+
+// pickRefs draws unusual document references.
+func (g *gen) pickRefs() [][2]string {
+	switch g.r.Intn(3) {
+	case 0:
+		return nil
+	case 1:
+		return [][2]string{{"self", "https://example.com/first"}, {"self", "https://example.com/second"}}
+	}
+	return [][2]string{{"external", "https://example.com/only-external"}}
+}
+
+// ---- rendering: CSAF JSON ----
+
+func renderBranch(b *cBranch) map[string]any {
+	m := map[string]any{"category": b.Category, "name": b.Name}
+	if b.Product != nil {
+		h := map[string]string{}
+		if b.Product.CPE != nil {
+			h["cpe"] = *b.Product.CPE
+		}
+		if b.Product.Purl != nil {
+			h["purl"] = *b.Product.Purl
+		}
+		p := map[string]any{"name": b.Product.ID, "product_id": b.Product.ID}
+		if len(h) > 0 {
+			p["product_identification_helper"] = h
+		}
+		m["product"] = p
+	}
+	if len(b.Subs) > 0 {
+		var subs []map[string]any
+		for _, s := range b.Subs {
+			subs = append(subs, renderBranch(s))
+		}
+		m["branches"] = subs
+	}
+	return m
+}
+
+func renderCvss(c *cCvss, version string) map[string]any {
+	ver := version
+	if version == "3" {
+		ver = "3.1"
+		if strings.HasPrefix(c.Vector, "CVSS:3.0") {
+			ver = "3.0"
+		}
+	}
+	return map[string]any{"baseScore": c.Base, "baseSeverity": "HIGH", "vectorString": c.Vector, "version": ver}
+}
+
+// renderCSAF renders one CSAF document (one line of the feed).
+func renderCSAF(c cDoc) []byte {
+	var refs []map[string]string
+	for _, r := range c.DocRefs {
+		refs = append(refs, map[string]string{"category": r[0], "summary": "x", "url": r[1]})
+	}
+	var branches []map[string]any
+	for _, b := range c.Branches {
+		branches = append(branches, renderBranch(b))
+	}
+	var rels []map[string]any
+	for _, r := range c.Rels {
+		rels = append(rels, map[string]any{"category": r.Category, "full_product_name": map[string]any{"name": r.Ref + " as a component of " + r.RelTo, "product_id": r.FullID},
+			"product_reference": r.Ref, "relates_to_product_reference": r.RelTo})
+	}
+	var vulns []any
+	for _, v := range c.Vulns {
+		m := map[string]any{"cve": v.CVE, "product_status": v.Status}
+		if !v.Issued.IsZero() {
+			m["release_date"] = v.Issued.Format(time.RFC3339)
+		}
+		var notes []map[string]string
+		for _, n := range v.Notes {
+			notes = append(notes, map[string]string{"category": n[0], "text": n[1], "title": "t"})
+		}
+		m["notes"] = notes
+		var rs []map[string]string
+		for _, u := range v.Refs {
+			rs = append(rs, map[string]string{"category": "external", "summary": "x", "url": u})
+		}
+		m["references"] = rs
+		var ts []map[string]any
+		for _, t := range v.Threats {
+			ts = append(ts, map[string]any{"category": t.Category, "details": t.Details, "product_ids": t.Products})
+		}
+		m["threats"] = ts
+		var ss []map[string]any
+		for _, s := range v.Scores {
+			sm := map[string]any{"products": s.Products}
+			if s.V2 != nil {
+				sm["cvss_v2"] = renderCvss(s.V2, "2.0")
+			}
+			if s.V3 != nil {
+				sm["cvss_v3"] = renderCvss(s.V3, "3")
+			}
+			if s.V4 != nil {
+				sm["cvss_v4"] = renderCvss(s.V4, "4.0")
+			}
+			ss = append(ss, sm)
+		}
+		m["scores"] = ss
+		var rms []map[string]any
+		for _, r := range v.Rems {
+			rms = append(rms, map[string]any{"category": "vendor_fix", "details": "apply the update", "product_ids": r.Products, "url": r.URL})
+		}
+		m["remediations"] = rms
+		vulns = append(vulns, m)
+	}
 	doc := map[string]any{
-		"document": map[string]any{"category": "csaf_vex", "csaf_version": "2.0", "title": d.ID,
-			"tracking":   map[string]any{"id": d.ID, "status": d.Status, "current_release_date": "2024-09-16T20:59:13+00:00", "initial_release_date": "2024-08-08T00:00:00+00:00", "version": "3"},
-			"references": []map[string]string{{"category": "self", "summary": "Canonical URL", "url": d.SelfLink}, {"category": "external", "summary": "x", "url": "https://example.com/other"}},
+		"document": map[string]any{"category": "csaf_vex", "csaf_version": "2.0", "title": c.ID,
+			"tracking":   map[string]any{"id": c.ID, "status": c.Status, "current_release_date": "2024-09-16T20:59:13+00:00", "initial_release_date": "2024-08-08T00:00:00+00:00", "version": "3"},
+			"references": refs,
 			"publisher":  map[string]string{"category": "vendor", "name": "Red Hat Product Security", "namespace": "https://www.redhat.com"}},
-		"product_tree": map[string]any{
-			"branches":      []map[string]any{{"category": "vendor", "name": "Red Hat", "branches": append([]map[string]any{{"category": "product_family", "name": "Red Hat Enterprise Linux", "branches": repoBr}}, compBr...)}},
-			"relationships": rels},
-		"vulnerabilities": []any{vuln},
+		"product_tree":    map[string]any{"branches": branches, "relationships": rels},
+		"vulnerabilities": vulns,
 	}
 	b, _ := json.Marshal(doc)
 	return b
+}
+
+// ---- op line ----
+
+type vexTables struct {
+	cpes map[string]bool
+	tags map[string]bool
+}
+
+func (l *line) vexProduct(p *cProduct, tb *vexTables) *line {
+	if p == nil {
+		return l.str("").n(0).n(0)
+	}
+	l.str(p.ID)
+	if p.CPE == nil {
+		l.n(0)
+	} else {
+		l.n(1).str(*p.CPE)
+		tb.cpes[escapeCPEGo(*p.CPE)] = true
+	}
+	if p.Purl == nil {
+		return l.n(0)
+	}
+	u, err := packageurl.FromString(*p.Purl)
+	if err != nil {
+		return l.n(1)
+	}
+	q := u.Qualifiers.Map()
+	l.n(2).str(u.Type).str(u.Namespace).str(u.Name).str(u.Version).str(q["arch"])
+	for _, k := range []string{"epoch", "tag", "repository_url"} {
+		if x, ok := q[k]; ok {
+			l.n(1).str(x)
+			if k == "tag" {
+				tb.tags[x] = true
+			}
+		} else {
+			l.n(0)
+		}
+	}
+	return l
+}
+
+func (l *line) vexBranch(b *cBranch, tb *vexTables) *line {
+	l.vexProduct(b.Product, tb).n(len(b.Subs))
+	for _, s := range b.Subs {
+		l.vexBranch(s, tb)
+	}
+	return l
+}
+
+func (l *line) cvss(c *cCvss, parse func(string) error) *line {
+	if c == nil {
+		return l.n(0)
+	}
+	ok, zero := 0, 0
+	if parse(c.Vector) == nil {
+		ok = 1
+	}
+	if c.Base == 0 {
+		zero = 1
+	}
+	return l.n(1).str(c.Vector).n(ok).n(zero)
+}
+
+func (l *line) vexDoc(c cDoc, tb *vexTables) *line {
+	l.str(c.ID).str(c.Status).n(len(c.DocRefs))
+	for _, r := range c.DocRefs {
+		l.str(r[0]).str(r[1])
+	}
+	// the root of the tree is the product_tree object itself: no product, the top-level branches
+	l.vexProduct(nil, tb).n(len(c.Branches))
+	for _, b := range c.Branches {
+		l.vexBranch(b, tb)
+	}
+	l.n(len(c.Rels))
+	for _, r := range c.Rels {
+		l.str(r.Category).str(r.FullID).str(r.Ref).str(r.RelTo)
+	}
+	l.n(len(c.Vulns))
+	for _, v := range c.Vulns {
+		l.str(issuedTok(v.Issued)).strs(v.Refs).n(len(v.Notes))
+		for _, n := range v.Notes {
+			l.str(n[0]).str(n[1])
+		}
+		l.strs(v.Status["fixed"]).strs(v.Status["known_affected"])
+		var other []string
+		for _, k := range v.StatusKeys {
+			if k != "fixed" && k != "known_affected" {
+				other = append(other, v.Status[k]...)
+			}
+		}
+		l.strs(other)
+		l.n(len(v.Threats))
+		for _, t := range v.Threats {
+			l.str(t.Category).str(t.Details).strs(t.Products)
+		}
+		l.n(len(v.Scores))
+		for _, s := range v.Scores {
+			l.cvss(s.V2, func(x string) error { _, err := cvss.ParseV2(x); return err })
+			l.cvss(s.V3, func(x string) error { _, err := cvss.ParseV3(x); return err })
+			l.cvss(s.V4, func(x string) error { _, err := cvss.ParseV4(x); return err })
+			l.strs(s.Products)
+		}
+		l.n(len(v.Rems))
+		for _, r := range v.Rems {
+			l.str(r.URL).strs(r.Products)
+		}
+	}
+	return l
+}
+
+// vexLine is the whole operation line: updater, the cpe.Unbind and rhctag.Parse
+// tables for every string the documents contain, the documents.
+func vexLine(updater string, docs []cDoc) string {
+	tb := &vexTables{cpes: map[string]bool{}, tags: map[string]bool{}}
+	body := &line{}
+	body.n(len(docs))
+	for _, c := range docs {
+		body.vexDoc(c, tb)
+	}
+	l := (&line{}).tok("vex").str(updater)
+	ck := make([]string, 0, len(tb.cpes))
+	for k := range tb.cpes {
+		ck = append(ck, k)
+	}
+	sort.Strings(ck)
+	l.n(len(ck))
+	for _, k := range ck {
+		l.str(k)
+		if w, err := cpe.Unbind(k); err == nil {
+			l.n(1).str(w.String())
+		} else {
+			l.n(0)
+		}
+	}
+	tk := make([]string, 0, len(tb.tags))
+	for k := range tb.tags {
+		tk = append(tk, k)
+	}
+	sort.Strings(tk)
+	l.n(len(tk))
+	for _, k := range tk {
+		l.str(k)
+		if v, err := rhctag.Parse(k); err == nil {
+			cv := v.Version(true)
+			if cv.V[0] < 0 || cv.V[1] < 0 {
+				l.n(0) // never generated
+			} else {
+				l.n(1).n(int(cv.V[0])).n(int(cv.V[1]))
+			}
+		} else {
+			l.n(0)
+		}
+	}
+	return l.String() + " " + body.String()
 }
 
 func scoreKey(vec string, zero bool) string {
@@ -332,12 +842,16 @@ func vexArch(a string) string {
 	return a
 }
 
-// vexWants: what the documents state, as (name, package, fixed, repo, module, arch pattern, kind, severity string, links) tuples.
+const goldRepoKey = "Red Hat Container Catalog||https://catalog.redhat.com/software/containers/explore"
+
+// vexWants: what the documents state, as (name, package, fixed, repo, module, arch pattern, kind, severity string, links, range) tuples.
 func vexWants(docs []vexDoc) (wants []want, deleted map[string]bool, zeroScore int) {
 	deleted = map[string]bool{}
 	last := map[string]int{}
 	for i, d := range docs {
-		last[d.ID] = i
+		if d.Status != "deleted" {
+			last[d.ID] = i
+		}
 	}
 	for i, d := range docs {
 		if d.Status == "deleted" {
@@ -349,7 +863,7 @@ func vexWants(docs []vexDoc) (wants []want, deleted map[string]bool, zeroScore i
 		}
 		links := strings.Join(append(append([]string{}, d.Refs...), d.SelfLink), " ")
 		n := 0
-		mk := func(pkg, fixed, repoCPE, mod, arch, kind string, archop int, impact, vector, lnk string) {
+		mk := func(pkg, fixed, repo, mod, arch, kind string, archop int, impact, vector, lnk, rng string) {
 			sevstr := "Unknown"
 			if vector != "" {
 				sevstr = vector
@@ -358,10 +872,13 @@ func vexWants(docs []vexDoc) (wants []want, deleted map[string]bool, zeroScore i
 			if impact != "" {
 				nsev = rhel.NormalizeSeverityForC14(impact)
 			}
-			w, _ := cpe.Unbind(escapeCPEGo(repoCPE))
 			wants = append(wants, want{ID: d.ID, Pkg: pkg, Fixed: fixed, Dist: "", Sev: nsev,
-				Extra: fmt.Sprintf("kind=%s module=%s arch=%s archop=%d repo=%s|rhel-cpe-repository| sevstr=%q links=%q desc=%q", kind, mod, arch, archop, w.String(), sevstr, lnk, d.Desc)})
+				Extra: fmt.Sprintf("kind=%s module=%s arch=%s archop=%d repo=%s sevstr=%q links=%q desc=%q issued=%s range=%s", kind, mod, arch, archop, repo, sevstr, lnk, d.Desc, issuedTok(d.Issued), rng)})
 			n++
+		}
+		cpeRepo := func(c string) string {
+			w, _ := cpe.Unbind(escapeCPEGo(c))
+			return w.String() + "|rhel-cpe-repository|"
 		}
 		modName := func(m int) string {
 			if m < 0 {
@@ -369,6 +886,16 @@ func vexWants(docs []vexDoc) (wants []want, deleted map[string]bool, zeroScore i
 			}
 			return d.Modules[m].Name + ":" + d.Modules[m].Stream
 		}
+		// container images: the lowest fixed minor series per image name starts at zero
+		lowest := map[string][2]int{}
+		for _, f := range d.Fixed {
+			if f.OCI {
+				if cur, ok := lowest[f.Name]; !ok || f.Maj < cur[0] || (f.Maj == cur[0] && f.Min < cur[1]) {
+					lowest[f.Name] = [2]int{f.Maj, f.Min}
+				}
+			}
+		}
+		lowestUsed := map[string]bool{}
 		for _, f := range d.Fixed {
 			if f.Namespace != "redhat" || strings.HasPrefix(f.Name, "kernel") {
 				continue
@@ -376,10 +903,6 @@ func vexWants(docs []vexDoc) (wants []want, deleted map[string]bool, zeroScore i
 			if f.Vector != "" && f.ZeroScore && f.Impact == "" {
 				zeroScore++ // a 0.0 base score and no impact statement: the product is disregarded
 				continue
-			}
-			ep := f.Epoch
-			if ep == "" {
-				ep = "0"
 			}
 			var as []string
 			for _, a := range f.Arches {
@@ -393,7 +916,21 @@ func vexWants(docs []vexDoc) (wants []want, deleted map[string]bool, zeroScore i
 			if f.Remediation != "" {
 				lnk += " " + f.Remediation
 			}
-			mk(f.Name, ep+":"+f.VR, d.Repos[f.Repo].CPE, modName(f.Module), strings.Join(as, "|"), claircore.BINARY, archop, f.Impact, f.Vector, lnk)
+			if f.OCI {
+				lo := fmt.Sprintf("%s:%d.%d.0.0", hs("rhctag"), f.Maj, f.Min)
+				if lowest[f.Name] == [2]int{f.Maj, f.Min} && !lowestUsed[f.Name] {
+					lowestUsed[f.Name] = true
+					lo = fmt.Sprintf("%s:0.0.0.0", hs("rhctag"))
+				}
+				mk(f.Name, f.Tag, goldRepoKey, "", strings.Join(as, "|"), claircore.BINARY, archop, f.Impact, f.Vector, lnk,
+					fmt.Sprintf("%s~%s:%d.%d.2147483647.0", lo, hs("rhctag"), f.Maj, f.Min))
+				continue
+			}
+			ep := f.Epoch
+			if ep == "" {
+				ep = "0"
+			}
+			mk(f.Name, ep+":"+f.VR, cpeRepo(d.Repos[f.Repo].CPE), modName(f.Module), strings.Join(as, "|"), claircore.BINARY, archop, f.Impact, f.Vector, lnk, "nil")
 		}
 		for _, u := range d.Unfixed {
 			if u.Status != "known_affected" || strings.HasPrefix(u.Name, "kernel") {
@@ -403,7 +940,12 @@ func vexWants(docs []vexDoc) (wants []want, deleted map[string]bool, zeroScore i
 				zeroScore++
 				continue
 			}
-			mk(u.Name, "", d.Repos[u.Repo].CPE, modName(u.Module), "", claircore.SOURCE, 0, u.Impact, u.Vector, links)
+			if u.OCI {
+				mk(u.Name, "", goldRepoKey, "", "", claircore.SOURCE, 0, u.Impact, u.Vector, links,
+					fmt.Sprintf("%s:0.0.0.0~%s:2147483647.0.0.0", hs("rhctag"), hs("rhctag")))
+				continue
+			}
+			mk(u.Name, "", cpeRepo(d.Repos[u.Repo].CPE), modName(u.Module), "", claircore.SOURCE, 0, u.Impact, u.Vector, links, "nil")
 		}
 		if n == 0 {
 			deleted[d.ID] = true // an advisory that yields nothing is reported as deleted
@@ -429,47 +971,126 @@ func vexExtra(v *claircore.Vulnerability) string {
 	if v.Package != nil {
 		kind, mod, arch = v.Package.Kind, v.Package.Module, v.Package.Arch
 	}
-	return fmt.Sprintf("kind=%s module=%s arch=%s archop=%d repo=%s sevstr=%q links=%q desc=%q", kind, mod, arch, int(v.ArchOperation), repoKeyNoCPE(v.Repo), v.Severity, v.Links, v.Description)
+	return fmt.Sprintf("kind=%s module=%s arch=%s archop=%d repo=%s sevstr=%q links=%q desc=%q issued=%s range=%s", kind, mod, arch, int(v.ArchOperation), repoKeyNoCPE(v.Repo), v.Severity, v.Links, v.Description,
+		issuedTok(v.Issued), rangeStr(v.Range))
+}
+
+// vexCanon renders a DeltaParse result: the vulnerabilities grouped by
+// advisory (map order is not observable; inside an advisory the order is kept)
+// and the deleted names, sorted.
+func vexCanon(vs []*claircore.Vulnerability, del []string, err error) string {
+	if err != nil {
+		return "err"
+	}
+	rs := make([]*claircore.Vulnerability, len(vs))
+	copy(rs, vs)
+	sort.SliceStable(rs, func(i, j int) bool { return rs[i].Name < rs[j].Name })
+	out := []string{"ok " + strconv.Itoa(len(rs))}
+	for _, v := range rs {
+		out = append(out, canon(v))
+	}
+	ds := make([]string, len(del))
+	for i, d := range del {
+		ds[i] = hs(d)
+	}
+	sort.Strings(ds)
+	out = append(out, "del "+strconv.Itoa(len(ds)))
+	return strings.Join(append(out, ds...), " ")
+}
+
+// vexScenario renders the documents, runs the real DeltaParse, records the
+// protocol line and returns the result.
+func vexScenario(r *hx.Run, docs []cDoc, nontrivial bool) (vs []*claircore.Vulnerability, del []string, err error, obs string, plain []byte) {
+	u := &vex.Updater{}
+	var pb bytes.Buffer
+	for _, c := range docs {
+		pb.Write(renderCSAF(c))
+		pb.WriteByte('\n')
+	}
+	var comp bytes.Buffer
+	sw := snappy.NewBufferedWriter(&comp)
+	sw.Write(pb.Bytes())
+	sw.Close()
+	obs = hx.Guard(func() string {
+		vs, del, err = u.DeltaParse(context.Background(), io.NopCloser(bytes.NewReader(comp.Bytes())))
+		return ""
+	})
+	out := obs
+	if obs == "" {
+		out = vexCanon(vs, del, err)
+	}
+	r.Op("reset", "ok", false)
+	r.Op(vexLine(u.Name(), docs), out, nontrivial)
+	return vs, del, err, obs, pb.Bytes()
 }
 
 func runVex(r *hx.Run, g *gen, cfg hx.Config) {
-	u := &vex.Updater{}
+	vexWitnesses(r)
 	for it, n := 0, cfg.N(1200, 10000); it < n && !r.Stop(); it++ {
 		var docs []vexDoc
 		for i, m := 0, 1+g.r.Intn(3); i < m; i++ {
 			docs = append(docs, g.vexDoc(it*4+i))
 		}
 		if len(docs) > 1 && docs[0].Status == "final" && g.r.Chance(1, 5) {
-			// a later line for the first advisory again (both not deleted: Fetch never emits an
-			// advisory both as a document and as a deletion record)
+			// a later line for the first advisory again
 			d := g.vexDoc(it * 4)
 			d.Status = "final"
 			docs = append(docs, d)
 		}
-		var plain bytes.Buffer
-		for _, d := range docs {
-			plain.Write(renderVex(d))
-			plain.WriteByte('\n')
+		modelOnly := ""
+		var cdocs []cDoc
+		ids := map[string]int{}
+		for i := range docs {
+			c := docs[i].decoded()
+			if docs[i].Status != "deleted" && g.r.Chance(1, 5) {
+				if what := g.alter(&c); what != "" {
+					modelOnly = what
+					r.Count("vex:altered:" + what)
+				}
+			}
+			cdocs = append(cdocs, c)
+			ids[docs[i].ID]++
 		}
-		var comp bytes.Buffer
-		sw := snappy.NewBufferedWriter(&comp)
-		sw.Write(plain.Bytes())
-		sw.Close()
+		for _, d := range docs {
+			if d.Status == "deleted" && ids[d.ID] > 1 {
+				modelOnly = "document and deletion record for one advisory" // Fetch never writes both
+			}
+			for _, f := range d.Fixed {
+				if f.OCI && f.Vector != "" && f.ZeroScore && f.Impact == "" {
+					modelOnly = "a disregarded container image stays in the ranger"
+				}
+			}
+		}
 		wants, wantDel, nz := vexWants(docs)
 		for i := 0; i < nz; i++ {
 			r.Count("vex:zero-score-disregarded")
 		}
-		var vs []*claircore.Vulnerability
-		var del []string
-		var err error
-		obs := hx.Guard(func() string {
-			vs, del, err = u.DeltaParse(context.Background(), io.NopCloser(bytes.NewReader(comp.Bytes())))
-			return ""
-		})
-		key := fmt.Sprintf("vex %d docs %d stated", len(docs), len(wants))
-		r.Case(key+fmt.Sprint(it), len(wants) > 0)
+		vs, del, err, obs, plain := vexScenario(r, cdocs, len(wants) > 0)
 		r.Count("vex:vulns:" + bucket(len(wants)))
-		wit := func() string { return "feed=" + clip(plain.Bytes()) }
+		for _, d := range docs {
+			for _, x := range d.Unfixed {
+				r.Count("vex:status:" + x.Status)
+			}
+			for _, f := range d.Fixed {
+				if f.OCI {
+					r.Count("vex:fixed:container-image")
+				} else if f.Module >= 0 {
+					r.Count("vex:fixed:rpm-in-module")
+				} else {
+					r.Count("vex:fixed:rpm")
+				}
+			}
+			r.Count("vex:fixed-components:" + bucket(len(d.Fixed)))
+		}
+		if modelOnly != "" {
+			r.Count("vex:scenario:model-only")
+			if obs != "" {
+				r.Fail("", fmt.Sprintf("vex DeltaParse (%s): %s; feed=%s", modelOnly, obs, clip(plain)))
+			}
+			continue
+		}
+		r.Count("vex:scenario:checked")
+		wit := func() string { return "feed=" + clip(plain) }
 		if obs != "" || err != nil {
 			r.Fail("", fmt.Sprintf("vex DeltaParse of well-formed CSAF documents: %s%v; %s", obs, err, wit()))
 			continue
@@ -493,17 +1114,52 @@ func runVex(r *hx.Run, g *gen, cfg hx.Config) {
 			}
 		}
 		for _, v := range vs {
-			if v.Repo != nil {
+			if v.Repo != nil && v.Repo.Key != "" {
 				if w, err := cpe.Unbind(v.Repo.Name); err != nil || w.String() != v.Repo.CPE.String() {
 					r.Fail("", fmt.Sprintf("vex: repository %q carries CPE %q; %s", v.Repo.Name, v.Repo.CPE.String(), wit()))
 				}
 			}
 		}
-		for _, d := range docs {
-			for _, x := range d.Unfixed {
-				r.Count("vex:status:" + x.Status)
+	}
+}
+
+// vexWitnesses replays the fixed witnesses of repaired defects.
+func vexWitnesses(r *hx.Run) {
+	// 1. fixed 5c0bf101: two advisories use the repository id REPO for different CPEs
+	mk := func(id, cpeURI string, moduleDeclared bool) cDoc {
+		comp := []*cBranch{
+			{Category: "product_name", Name: "r", Product: &cProduct{ID: "REPO", CPE: sp(cpeURI)}},
+			{Category: "product_version", Name: "c", Product: &cProduct{ID: "curl", Purl: sp("pkg:rpm/redhat/curl?arch=src")}},
+		}
+		if moduleDeclared {
+			comp = append(comp, &cBranch{Category: "product_version", Name: "m", Product: &cProduct{ID: "nodejs:12:1:abc", Purl: sp("pkg:rpmmod/redhat/nodejs@12%3A1%3Aabc")}})
+		}
+		return cDoc{ID: id, Status: "final", DocRefs: [][2]string{{"self", "https://example.com/" + id}},
+			Branches: []*cBranch{{Category: "vendor", Name: "Red Hat", Subs: comp}},
+			Rels: []cRel{{"default_component_of", "REPO:curl", "curl", "REPO"}, {"default_component_of", "REPO:nodejs:12:1:abc", "nodejs:12:1:abc", "REPO"},
+				{"default_component_of", "REPO:nodejs:12:1:abc:curl", "curl", "REPO:nodejs:12:1:abc"}},
+			Vulns: []cVuln{{CVE: id, Status: map[string][]string{"known_affected": {"REPO:curl", "REPO:nodejs:12:1:abc:curl"}}, StatusKeys: []string{"known_affected"},
+				Threats: []cThreat{{"impact", "Low", []string{"REPO:curl", "REPO:nodejs:12:1:abc:curl"}}}}}}
+	}
+	{
+		vs, _, err, obs, _ := vexScenario(r, []cDoc{mk("CVE-2024-0001", "cpe:/o:redhat:enterprise_linux:8", true), mk("CVE-2024-0002", "cpe:/o:redhat:enterprise_linux:9", true)}, true)
+		var got []string
+		for _, v := range vs {
+			if v != nil && v.Repo != nil {
+				got = append(got, v.Name+"@"+v.Repo.Name)
 			}
-			r.Count("vex:fixed-components:" + bucket(len(d.Fixed)))
+		}
+		sort.Strings(got)
+		want := "CVE-2024-0001@cpe:2.3:o:redhat:enterprise_linux:8:*:*:*:*:*:*:* CVE-2024-0001@cpe:2.3:o:redhat:enterprise_linux:8:*:*:*:*:*:*:* CVE-2024-0002@cpe:2.3:o:redhat:enterprise_linux:9:*:*:*:*:*:*:* CVE-2024-0002@cpe:2.3:o:redhat:enterprise_linux:9:*:*:*:*:*:*:*"
+		if obs != "" || err != nil || strings.Join(got, " ") != want {
+			r.Fail("", fmt.Sprintf("vex: two advisories whose product id REPO stands for enterprise_linux:8 resp. :9 yield %s%v %v", obs, err, got))
+		}
+	}
+	// 2. fixed c495f448: the module product id of a relationship chain is not declared in the product tree
+	{
+		vs, _, err, obs, _ := vexScenario(r, []cDoc{mk("CVE-2024-0003", "cpe:/o:redhat:enterprise_linux:8", false)}, true)
+		if obs != "" || err != nil || len(vs) != 2 {
+			r.Fail("", fmt.Sprintf("vex: a relationship chain through an undeclared module product id yields %s%v and %d vulnerabilities", obs, err, len(vs)))
 		}
 	}
 }
